@@ -39,7 +39,7 @@ theorem vars_are_leaves {fuel : Nat} {lib : Lib} {t : Path} {m : FlatModel} (h :
     (q : Path) (b : String) (ds : List Nat) (pre : List String) :
     (∃ k, Leaf lib t q k b ds ∧ pre = keepIO q.length k.prefixes) ↔
       ∃ v ∈ m.vars, v.path = q ∧ v.ty = b ∧ v.dims = ds ∧ v.prefixes = pre := by
-  obtain ⟨r, hr, rfl, htop⟩ := flattenF_ok h
+  obtain ⟨r, ri, hr, hri, rfl, htop, htopi⟩ := flattenF_ok h
   constructor
   · rintro ⟨k, hl, rfl⟩
     obtain ⟨v, hv, hp, ht, hd, hpre⟩ := inst_vars_complete hl hr
@@ -75,11 +75,11 @@ example : flattenF 6 exLib ["M"] = .ok exFlat ∧
 /-- No instance path is the name of two flat variables. -/
 theorem vars_nodup {fuel : Nat} {lib : Lib} {t : Path} {m : FlatModel} (h : flattenF fuel lib t = .ok m) :
     (m.vars.map (·.path)).Nodup := by
-  obtain ⟨r, hr, rfl, htop⟩ := flattenF_ok h
+  obtain ⟨r, ri, hr, hri, rfl, htop, htopi⟩ := flattenF_ok h
   have := inst_nodup hr
   simpa [assemble, finVar, List.map_map, Function.comp_def] using this
 
-example : flattenF 6 exLib ["M"] = .ok exFlat ∧ exFlat.vars.length = 8 := ⟨exFlat_ok, by decide +kernel⟩
+example : flattenF 6 exLib ["M"] = .ok exFlat ∧ exFlat.vars.length = 10 := ⟨exFlat_ok, by decide +kernel⟩
 
 /-- Every flat variable is a leaf and carries the leaf's builtin type, the dimensions of the
     enclosing array components followed by its own, and its declared prefixes filtered for depth. -/
@@ -90,7 +90,7 @@ theorem leaf_data_kept {fuel : Nat} {lib : Lib} {t : Path} {m : FlatModel} (h : 
   exact ⟨k, _, _, hl, rfl, rfl, hp⟩
 
 example : flattenF 6 exLib ["M"] = .ok exFlat ∧
-    (exFlat.vars.map fun v => (v.path, v.ty, v.dims, v.prefixes))[6]? = some (["l2", "w"], "Real", [3, 2], []) :=
+    (exFlat.vars.map fun v => (v.path, v.ty, v.dims, v.prefixes))[8]? = some (["l2", "w"], "Real", [3, 2], []) :=
   ⟨exFlat_ok, by decide +kernel⟩
 
 /-- `input` / `output` never survive below the top level … -/
@@ -101,8 +101,8 @@ theorem io_only_top_level {fuel : Nat} {lib : Lib} {t : Path} {m : FlatModel} (h
   simp [keepIO, hdeep]
 
 example : flattenF 6 exLib ["M"] = .ok exFlat ∧
-    (exFlat.vars.map fun v => (v.path, v.prefixes))[1]? = some (["lb", "u"], []) ∧
-    (exFlat.vars.map fun v => (v.path, v.prefixes))[7]? = some (["y"], ["output"]) :=
+    (exFlat.vars.map fun v => (v.path, v.prefixes))[2]? = some (["lb", "u"], []) ∧
+    (exFlat.vars.map fun v => (v.path, v.prefixes))[9]? = some (["y"], ["output"]) :=
   ⟨exFlat_ok, by decide +kernel, by decide +kernel⟩
 
 /-- … and every other prefix (parameter, constant, discrete, flow), at every depth, and
@@ -124,51 +124,87 @@ theorem other_prefixes_kept {fuel : Nat} {lib : Lib} {t : Path} {m : FlatModel} 
     · exact absurd hx hne
 
 example : flattenF 6 exLib ["M"] = .ok exFlat ∧
-    (exFlat.vars.map fun v => (v.path, v.prefixes))[4]? = some (["l2", "k"], ["parameter"]) :=
+    (exFlat.vars.map fun v => (v.path, v.prefixes))[5]? = some (["l2", "k"], ["parameter"]) :=
   ⟨exFlat_ok, by decide +kernel⟩
 
 /-! ## the equations -/
 
 /-- Renaming of one reference written in instance `P`: it becomes the flat variable `P ++ names`
-    with all subscripts collected iff that path is a flat variable; otherwise it stays as written. -/
-theorem reference_renaming (names : List Path) (P : Path) (parts : List (Name × List Nat)) :
-    (P ++ refNames parts ∈ names → rename names P (.ref parts) = .fref (P ++ refNames parts) (refSubs parts)) ∧
-    (P ++ refNames parts ∉ names → rename names P (.ref parts) = .uref parts) := by
-  constructor <;> intro h <;> simp [rename, h]
+    with the subscripts of all its parts collected (and renamed by the same rule, `renSub1` /
+    `renSub0`) iff that path is a flat variable; otherwise it stays as written.  The same rule holds
+    for names and references inside subscripts, at both levels. -/
+theorem reference_renaming (names : List Path) (P : Path) :
+    (∀ parts : List (Name × List Sub1),
+      (P ++ refNames parts ∈ names → rename names P (.ref parts) = .fref (P ++ refNames parts) (refSubs names P parts)) ∧
+      (P ++ refNames parts ∉ names → rename names P (.ref parts) = .uref parts)) ∧
+    (∀ parts : List (Name × List Sub0),
+      (P ++ refNames parts ∈ names → renSub1 names P (.ref parts) = .var (P ++ refNames parts) (refSubs0 names P parts)) ∧
+      (P ++ refNames parts ∉ names → renSub1 names P (.ref parts) = .uref parts)) ∧
+    (∀ x : Name,
+      (P ++ [x] ∈ names → renSub1 names P (.name x) = .var (P ++ [x]) [] ∧ renSub0 names P (.name x) = .var (P ++ [x])) ∧
+      (P ++ [x] ∉ names → renSub1 names P (.name x) = .name x ∧ renSub0 names P (.name x) = .name x)) := by
+  refine ⟨fun parts => ⟨?_, ?_⟩, fun parts => ⟨?_, ?_⟩, fun x => ⟨?_, ?_⟩⟩ <;> intro h <;>
+    simp [rename, renSub1, renSub0, h]
 
-example : rename [["a", "x"]] ["a"] (.ref [("x", [2])]) = .fref ["a", "x"] [2] ∧
+-- `v[i + off[k]]` written in instance `a`: `i` is no variable and stays, `off` and `k` are renamed
+example : rename [["a", "v"], ["a", "off"], ["a", "k"]] ["a"]
+      (.ref [("v", [.add (.name "i") (.ref [("off", [.name "k"])])])]) =
+    .fref ["a", "v"] [.add (.name "i") (.var ["a", "off"] [.var ["a", "k"]])] ∧
     rename [["a", "x"]] ["a"] (.ref [("time", [])]) = .uref [("time", [])] := by decide
 
 /-- The equation list of the flat model is: the instance equations, then one `v = 0` per flow
     variable, then the binding equations; and the instance equations are exactly the equations
-    (own and inherited) of every class instantiated at some instance path `q`, renamed at `q`. -/
+    (own and inherited; simple or for-loops) of every class instantiated at some instance path `q`,
+    renamed at `q`. -/
 theorem eqs_are_instance_eqs {fuel : Nat} {lib : Lib} {t : Path} {m : FlatModel} (h : flattenF fuel lib t = .ok m) :
     ∃ r : List Var × List IEq, instTop fuel lib t = .ok r ∧
       m.eqs = instEqs (m.vars.map (·.path)) r.2 ++ flowEqs r.1 ++ bindEqs (m.vars.map (·.path)) r.1 ∧
       ∀ fe, fe ∈ instEqs (m.vars.map (·.path)) r.2 ↔
-        ∃ q c x, InstAt lib t q c ∧ MemberEq lib c x ∧
-          fe = (rename (m.vars.map (·.path)) q x.1, rename (m.vars.map (·.path)) q x.2) := by
-  obtain ⟨r, hr, rfl, htop⟩ := flattenF_ok h
-  have hnames : (assemble r).vars.map (·.path) = r.1.map (·.path) := by
+        ∃ q c x, InstAt lib t q c ∧ MemberEq lib c x ∧ fe = renameEqn (m.vars.map (·.path)) q x := by
+  obtain ⟨r, ri, hr, hri, rfl, htop, htopi⟩ := flattenF_ok h
+  have hnames : (assemble r ri.2).vars.map (·.path) = r.1.map (·.path) := by
     simp [assemble, finVar, List.map_map, Function.comp_def]
-  refine ⟨r, ?_, ?_, ?_⟩
-  · exact htop
-  · rw [hnames]; rfl
-  · intro fe
-    rw [hnames]
-    constructor
-    · intro hfe
-      obtain ⟨e, he, rfl⟩ := List.mem_map.mp hfe
-      obtain ⟨q, c, hs, hi, hme⟩ := inst_eqs_sound hr he
-      exact ⟨q, c, _, hi, hme, by simp at hs; rw [hs]⟩
-    · rintro ⟨q, c, x, hi, hme, rfl⟩
-      have := inst_eqs_complete hi hme hr
-      exact List.mem_map.mpr ⟨_, this, by simp⟩
+  refine ⟨r, htop, by rw [hnames]; rfl, ?_⟩
+  intro fe
+  rw [hnames]
+  constructor
+  · intro hfe
+    obtain ⟨e, he, rfl⟩ := List.mem_map.mp hfe
+    obtain ⟨q, c, hs, hi, hme⟩ := inst_eqs_sound hr he
+    exact ⟨q, c, _, hi, hme, by simp at hs; rw [hs]⟩
+  · rintro ⟨q, c, x, hi, hme, rfl⟩
+    have := inst_eqs_complete hi hme hr
+    exact List.mem_map.mpr ⟨_, this, by simp⟩
 
 example : flattenF 6 exLib ["M"] = .ok exFlat ∧
-    exFlat.eqs[2]? = some (.fref ["b"] [], .fref ["lb", "u"] []) ∧
-    exFlat.eqs[3]? = some (.fref ["y"] [], .bin "+" (.fref ["l2", "u"] [1]) (.fref ["b"] [])) :=
+    exFlat.eqs[1]? = some (.forEq "i" 1 2 [(.fref ["lb", "w"] [.add (.name "i") (.var ["lb", "n"] [])], .fref ["lb", "u"] [])]) ∧
+    exFlat.eqs[4]? = some (.eq (.fref ["b"] []) (.fref ["lb", "u"] [])) :=
   ⟨exFlat_ok, by decide +kernel, by decide +kernel⟩
+
+/-- The initial equations of the flat model are exactly the initial equations (own and inherited)
+    of every class instantiated at some instance path `q`, renamed at `q` — with the full prefix,
+    like ordinary equations. -/
+theorem initial_eqs_are_instance_eqs {fuel : Nat} {lib : Lib} {t : Path} {m : FlatModel}
+    (h : flattenF fuel lib t = .ok m) (fe : FEqn) :
+    fe ∈ m.ieqs ↔ ∃ q c x, InstAt lib t q c ∧ MemberIEq lib c x ∧ fe = renameEqn (m.vars.map (·.path)) q x := by
+  obtain ⟨r, ri, hr, hri, rfl, htop, htopi⟩ := flattenF_ok h
+  have hnames : (assemble r ri.2).vars.map (·.path) = r.1.map (·.path) := by
+    simp [assemble, finVar, List.map_map, Function.comp_def]
+  rw [hnames]
+  show fe ∈ instEqs (r.1.map (·.path)) ri.2 ↔ _
+  constructor
+  · intro hfe
+    obtain ⟨e, he, rfl⟩ := List.mem_map.mp hfe
+    obtain ⟨q, c, hs, hi, hme⟩ := inst_eqs_sound hri he
+    exact ⟨q, c, _, instAt_initView.mp hi, memberEq_initView.mp hme, by simp at hs; rw [hs]⟩
+  · rintro ⟨q, c, x, hi, hme, rfl⟩
+    have := inst_eqs_complete (instAt_initView.mpr hi) (memberEq_initView.mpr hme) hri
+    exact List.mem_map.mpr ⟨_, this, by simp⟩
+
+example : flattenF 6 exLib ["M"] = .ok exFlat ∧
+    exFlat.ieqs = [.eq (.fref ["lb", "w"] [.var ["lb", "n"] []]) (.num 0),
+                   .eq (.fref ["l2", "w"] [.var ["l2", "n"] []]) (.num 0)] :=
+  ⟨exFlat_ok, by decide +kernel⟩
 
 /-! ## fuel and lookup -/
 
@@ -180,15 +216,36 @@ theorem fuel_irrelevant {f f' : Nat} {lib : Lib} {t : Path} {m : FlatModel} (h :
 example : flattenF 6 exLib ["M"] = .ok exFlat ∧ flattenF 9 exLib ["M"] = .ok exFlat :=
   ⟨exFlat_ok, flattenF_fuel_le exFlat_ok (by decide)⟩
 
-/-- Type names are resolved lexically: a successful lookup of `h.t` from the class with path `scope`
-    gives the class `s.h.t` for the *longest* prefix `s` of `scope` (innermost enclosing class, the
-    class itself included, the root last) that declares a class named `h`. -/
-theorem lookup_is_lexical {paths : List Path} {scope : Path} {h : Name} {t : List Name} {p : Path}
-    (hr : resolveRef paths scope (h :: t) = .ok (.cls p)) :
-    ∃ j, j ≤ scope.length ∧ p = scope.take j ++ h :: t ∧ p ∈ paths ∧ scope.take j ++ [h] ∈ paths ∧
-      ∀ j', j < j' → j' ≤ scope.length → scope.take j' ++ [h] ∉ paths := resolveRef_lexical hr
+/-- Type names are looked up the Modelica way: a successful lookup of `h.t` from the class `scope`
+    finds `h` among the candidates of the innermost level `j` (the class `scope.take j`; the root for
+    `j = 0`) that has a class of that name — the candidates being the classes visible there (`vis`:
+    own local classes first, then inherited ones), or only the class's own local classes when the
+    name is the base class of one of its extends clauses — and then walks `t` through the classes
+    visible in the classes found. -/
+theorem lookup_is_lexical {vis : Path → Except Err (List (Name × Path))} {own : Path → List (Name × Path)}
+    {scope : Path} {ownOnlyInner : Bool} {h : Name} {t : List Name} {p : Path}
+    (hr : resolveWith vis own scope (h :: t) ownOnlyInner = .ok (.cls p)) :
+    ∃ j cs b, j ≤ scope.length ∧ levelCands vis own scope ownOnlyInner j = .ok cs ∧ cs.lookup h = some b ∧
+      (∀ j', j < j' → j' ≤ scope.length →
+        ∃ cs', levelCands vis own scope ownOnlyInner j' = .ok cs' ∧ cs'.lookup h = none) ∧
+      descend vis b t = .ok (some p) := resolveWith_spec hr
 
-example : resolveRef [["P"], ["P", "A"], ["P", "Q"], ["P", "Q", "B"], ["A"]] ["P", "Q", "B"] ["A"] = .ok (.cls ["P", "A"]) := by
-  decide
+/-- `package P model A end A; model Base model N end N; end Base;`
+    `  model D extends Base; model L N n; A a; end L; end D; end P;` — from `P.D.L`, `N` is found one
+    level up among the classes `D` inherits, `A` two levels up; as a base-class name of `D` itself,
+    `N` is not found (the classes `D` inherits are not searched for its own extends clauses). -/
+def exIndex : Index :=
+  [([], ⟨[("P", ["P"])], []⟩),
+   (["P"], ⟨[("A", ["P", "A"]), ("Base", ["P", "Base"]), ("D", ["P", "D"])], []⟩),
+   (["P", "A"], ⟨[], []⟩),
+   (["P", "Base"], ⟨[("N", ["P", "Base", "N"])], []⟩),
+   (["P", "Base", "N"], ⟨[], []⟩),
+   (["P", "D"], ⟨[("L", ["P", "D", "L"])], [(["P", "D"], ["Base"], true)]⟩),
+   (["P", "D", "L"], ⟨[], []⟩)]
+
+example : resolveF 8 exIndex ["P", "D", "L"] ["N"] false = .ok (.cls ["P", "Base", "N"]) ∧
+    resolveF 8 exIndex ["P", "D", "L"] ["A"] false = .ok (.cls ["P", "A"]) ∧
+    (match resolveF 8 exIndex ["P", "D"] ["N"] true with | .ok _ => false | .error _ => true) = true := by
+  decide +kernel
 
 end PymocaVerif.Flatten
